@@ -332,7 +332,12 @@ func runPipeScenario(r *rand.Rand, kr *keyring, w *ndWriter, idx int) {
 				case 2:
 					k = min(rem, 1+r.Intn(20000))
 				}
-				n, err := conn.Write(bstream[wpos : wpos+k])
+				// like io.CopyBuffer: the chunk lives in a buffer the caller reuses as soon as Write has returned
+				chunk := append([]byte{}, bstream[wpos:wpos+k]...)
+				n, err := conn.Write(chunk)
+				for i := range chunk {
+					chunk[i] = 0xA5
+				}
 				fw := tr.written()
 				es := "none"
 				if err != nil {
